@@ -168,6 +168,9 @@ class ParseContext:
     self._symbol_table = {}
     self._symbol_source = {}
     self._dynamic_registration = False
+    # References built by this context (a statement's value is parsed, and its
+    # references built, before the statement is applied to the configuration).
+    self._references = []
 
     if import_manager is not None:
       for stmt in import_manager.sorted_imports:
@@ -346,11 +349,20 @@ class ParseContext:
       # imports the current parse context doesn't share.)
       for reference in iterate_references(_CONFIG, to=original.wrapper):
         reference.initialize(_INVERSE_REGISTRY[fn_or_cls])
+      # Likewise those of the statement being applied, which aren't stored yet.
+      for reference in self._references:
+        if reference.configurable.wrapper == original.wrapper:
+          reference.initialize(_INVERSE_REGISTRY[fn_or_cls])
 
     if inspect.isfunction(fn_or_cls) and inspect.isclass(path_attrs[-1]):  # pytype: disable=not-supported-yet
       self._register(attr_names[:-1], attr_values[:-1])
 
     return _INVERSE_REGISTRY[fn_or_cls]
+
+  def note_reference(self, reference):
+    """Records a reference built while parsing in this context."""
+    if self._dynamic_registration:
+      self._references.append(reference)
 
   def get_configurable(self, selector):
     """Get a configurable matching the given `selector`."""
@@ -937,7 +949,9 @@ class ParserDelegate(config_parser.ParserDelegate):
     unscoped_selector = scoped_selector.rsplit('/', 1)[-1]
     if _should_skip(unscoped_selector, self._skip_unknown):
       return _UnknownConfigurableReference(scoped_selector, evaluate)
-    return ConfigurableReference(scoped_selector, evaluate)
+    reference = ConfigurableReference(scoped_selector, evaluate)
+    _parse_context().note_reference(reference)
+    return reference
 
   def macro(self, name):
     matching_selectors = _CONSTANTS.matching_selectors(name)
